@@ -300,6 +300,70 @@ fn run_scenario(c: &RealCase) -> CaseResult {
     Ok(v)
 }
 
+// ------------------------------------------------------------------------------------------
+// the last handle is dropped by a thread that is unwinding
+
+#[derive(Debug, Clone, Serialize, Deserialize)]
+pub struct UnwindCase {
+    /// tick interval in seconds (the stop must not depend on it)
+    interval_s: u16,
+    delay_ms: u8,
+    /// a clone of the bar lives in the same thread and is dropped by the same unwinding
+    with_clone: bool,
+}
+
+fn os_threads() -> usize {
+    std::fs::read_dir("/proc/self/task").map(|d| d.count()).unwrap_or(0)
+}
+
+/// One case at a time: the number of OS threads of the process is the observation.
+fn run_unwind(c: &UnwindCase) -> CaseResult {
+    // let threads of earlier cases and parts come to their end first
+    let mut before = os_threads();
+    let t0 = Instant::now();
+    let mut stable = Instant::now();
+    while stable.elapsed() < Duration::from_millis(30) && t0.elapsed() < Duration::from_secs(5) {
+        std::thread::sleep(Duration::from_millis(5));
+        let n = os_threads();
+        if n != before {
+            before = n;
+            stable = Instant::now();
+        }
+    }
+    if before == 0 {
+        let mut v = Verdict::default();
+        v.label("no_proc_filesystem");
+        return Ok(v);
+    }
+    let spy = SlowSpy { flushes: Arc::new(AtomicUsize::new(0)), slow_ms: 0, fail_next: Default::default() };
+    let (interval, delay, with_clone) = (Duration::from_secs(60 + c.interval_s as u64), Duration::from_millis(c.delay_ms as u64 % 20), c.with_clone);
+    let spy2 = spy.clone();
+    let owner = std::thread::spawn(move || {
+        let pb = ProgressBar::with_draw_target(Some(10), ProgressDrawTarget::term_like(Box::new(spy2)));
+        pb.enable_steady_tick(interval);
+        let _second = if with_clone { Some(pb.clone()) } else { None };
+        std::thread::sleep(delay);
+        // the task fails: every handle it owns is dropped while the thread unwinds
+        let _ = catch(|| ());
+        panic!("scripted task failure");
+    });
+    ensure!(owner.join().is_err(), "harness", "the owner thread did not panic");
+    let t0 = Instant::now();
+    while os_threads() > before && t0.elapsed() < PROMPT {
+        std::thread::sleep(Duration::from_millis(5));
+    }
+    let after = os_threads();
+    ensure!(
+        after <= before,
+        "ticker_outlives_last_handle",
+        "a thread that owned the only handle(s) of a bar with a {interval:?} steady ticker panicked; {PROMPT:?} after it was joined the process still has {after} threads ({before} before): the ticker thread was not stopped when the last handle was dropped"
+    );
+    let mut v = Verdict::default();
+    v.nontrivial = true;
+    v.label("last_handle_dropped_by_an_unwinding_thread");
+    Ok(v)
+}
+
 pub fn property() -> Property {
     Property {
         id: "C08",
@@ -316,6 +380,17 @@ pub fn property() -> Property {
             signature: no_signature,
             essential: &["keeps_redrawing", "disable", "replace", "finish_then_drop", "last_drop", "manual_ticks_ignored", "finish_reset_enable_again", "ticker_enabled_while_hidden_then_shown", "ticker_frame_failed_once", "callback_panicked_under_a_live_ticker"],
             workers: 8,
+            decode: None,
+        }),
+        Box::new(Gen::<UnwindCase> {
+            name: "unwinding_owner",
+            rule: "real threads, one case at a time: a thread creates a bar with a steady ticker of 1-18 hours, optionally clones it, and panics 0-19 ms later, so that the last handle is dropped while the thread unwinds; after the thread was joined the number of OS threads of the process (/proc/self/task) is back to what it was within 20 s: the ticker thread was stopped by the drop, independently of its interval",
+            strategy: |_| (any::<u16>(), any::<u8>(), any::<bool>()).prop_map(|(interval_s, delay_ms, with_clone)| UnwindCase { interval_s, delay_ms, with_clone }).boxed(),
+            cases: |t| t.pick(4, 100),
+            run: run_unwind,
+            signature: no_signature,
+            essential: &["last_handle_dropped_by_an_unwinding_thread"],
+            workers: 1,
             decode: None,
         })],
     }
